@@ -42,7 +42,8 @@ if 'verif_recorder' not in bp.app.base.APPLICATIONS:
                 agent=self._agent,
                 deliver='deliver' in ctr.actions,
                 fragment=bool(pri.bundle_flags & PrimaryBlock.Flag.IS_FRAGMENT),
-                dest=pri.destination, source=pri.source,
+                dest=pri.destination, source=pri.source, flags=int(pri.getfieldval('bundle_flags')),
+                lifetime=int(pri.getfieldval('lifetime') or 0), report_to=pri.report_to,
                 ts=(pri.create_ts.getfieldval('dtntime'), pri.create_ts.getfieldval('seqno')),
                 payload=None if pyld is None else bytes(pyld),
                 block_types=[int(b.getfieldval('type_code')) for b in ctr.bundle.getfieldval('blocks')],
